@@ -55,8 +55,8 @@ def run(cx):
     if z:
         t = cx.true_returns(z)
         cx.guard('C19.P1', t, {'parent-not-empty': r'^!Name::is_empty\(arg1\)$',
-                               'fqdn-agrees': r'^Name::is_fqdn\(arg2\)$|^!Name::is_fqdn\(arg1\)$',
-                               'fqdn-agrees-2': r'^!Name::is_fqdn\(arg2\)$|^Name::is_fqdn\(arg1\)$',
+                               'fqdn-agrees': r'^Name::is_fqdn\(arg2\)$|^!Name::is_fqdn\(arg1\)$|^eq\(Name::is_fqdn\(arg1\),Name::is_fqdn\(arg2\)\)$|^eq\(Name::is_fqdn\(arg2\),Name::is_fqdn\(arg1\)\)$',
+                               'fqdn-agrees-2': r'^!Name::is_fqdn\(arg2\)$|^Name::is_fqdn\(arg1\)$|^eq\(Name::is_fqdn\(arg1\),Name::is_fqdn\(arg2\)\)$|^eq\(Name::is_fqdn\(arg2\),Name::is_fqdn\(arg1\)\)$',
                                'zone_of': r'^Name::zone_of\(arg1,arg2\)$'}, fn=z)
         cx.check('C19.P1', len(t) == 1, z.path, 'ret', 'single-true-return', str(len(t)))
     # ---------------------------------------------------------------- G1 / R1 ns_pool_for_name
@@ -174,6 +174,30 @@ def run(cx):
 
     # ---------------------------------------------------------------- H helper semantics the guards above rely on (rules/helpers.py)
     helpers.check(cx, 'C19.H', ['Name::zone_of', 'Name::base_name', 'Name::trim_to'])
+
+    # ---------------------------------------------------------------- F1 the answer filter sees the whole response
+    # deny_answers / allow_answers are applied by NameServerPool::send to every response the recursor (and the stub resolver) gets:
+    # a denied address must not leave in ANY section - the additional section carries the glue the recursor contacts next and the
+    # addresses alias chasing moves into the answer.  Every response handed back is either under allows_all() or has passed the
+    # retain of all three sections (an early return between them lets a section through unfiltered)
+    pf = cx.fn('C19.F1', '<hickory_resolver::name_server_pool::NameServerPool<P> as hickory_net::xfer::dns_handle::DnsHandle>::send::{closure@once#0}')
+    if pf:
+        rets = cx.calls(pf, r'Vec<T, A>::retain$|Vec::retain$')
+        secs = {}
+        for s in rets:
+            m = re.search(r'\.(answers|authorities|additionals),closure:<NameServerPool<P> as DnsHandle>::send::\{closure@once#0\}::\{closure@retain#0\}\)$', s.term)
+            if m:
+                secs.setdefault(m.group(1), []).append(s)
+        cx.check('C19.F1', set(secs) == {'answers', 'authorities', 'additionals'}, pf.path, 'calls', 'answer-filter-applied-to-all-three-sections', ', '.join(sorted(secs)))
+        handed = [s for s in cx.returns(pf, r'.') if not re.search(r'^Result::Err\(|from_residual', s.term) and not cx.has_guard(s, r'^AccessControlSet::allows_all\(')]
+        cx.check('C19.F1', len(handed) >= 1, pf.path, 'ret', 'filtered-response-returns-present', str(len(handed)))
+        for sec, ss in sorted(secs.items()):
+            cx.must_pass('C19.F1', pf, handed, via_blocks={x.bb for x in ss}, what=f'{sec}-filtered-before-the-response-is-handed-back')
+    rc_ = cx.fn('C19.F1', '<hickory_resolver::name_server_pool::NameServerPool<P> as hickory_net::xfer::dns_handle::DnsHandle>::send::{closure@once#0}::{closure@retain#0}')
+    if rc_:
+        DEN = r'AccessControlSet::denied\(\^\^arg1\.state\.cx\.answer_address_filter,phi\(into<IpAddr>\(arg2\.data@AAAA\.0\.0\)\|into<IpAddr>\(arg2\.data@A\.0\.0\)\)\)'
+        tr = [s for s in cx.true_returns(rc_) if not cx.has_guard(s, r'^in\(arg2\.data,(?!.*\bA\b)(?!.*\bAAAA\b)')]
+        cx.guard('C19.F1', tr, {'address-record-kept-only-if-not-denied': '^!' + DEN + '$'}, expect=1, fn=rc_)
 
     # ---------------------------------------------------------------- N1 argument names agree with the parameters they are bound to (engine/argnames.py)
     argnames.check(cx, 'C19.N1', r'hickory_resolver::recursor', floor=55)
